@@ -1,3 +1,72 @@
+/-
+  C16b — which constructed OCTET STRING encodings `OctetString::from_content` accepts in BER
+  (the part of C16 that Props/C16.lean leaves open), and that every accepted one is well-formed.
+
+  Model: `OS.fromContent fuel (.cons c)` with `c.mode = .ber`, i.e. `OS.takeConstructedBer c fuel` =
+  `capture c (fun c => berLoop c fuel fuel)`, `berLoop` = `while cons.skip_opt(filter)?.is_some() {}`
+  with `berFilter` (Model/Octet.lean, Model/Content.lean; src/string/octet.rs, src/decode/content.rs).
+  Reference: the X.690 grammar `Spec.parseValue / parseAll / parseUntilEoc` in BER, `Spec.osContent`,
+  `Spec.osAccept`.  Everything is on `runG0` (SliceSource semantics) and for ALL inputs: any content
+  octets, any number of values, any nesting depth, any fuel.  Built on C10 (`skip_opt` = grammar, both
+  directions) and on `C16.capture_run0`.
+
+  1. The filter (`runFilter_ber`, `allOS_iff_preorder`, `allOSL_iff_osContent`, `osTrees_iff_allOSL`):
+     on the trace `preorder t d` of a tree whose identifiers are in the reader's range (`bdd`; true of
+     every tree the grammar produces, `parse_good`), `berFilter` accepts iff `allOS t`: every
+     identifier in the tree, at every depth, is universal 4 (`C12.tagOf 0 4 = Tag.OCTET_STRING`).
+     For the kids `ts` of a parsed value, `allOSL ts` ⇔ `Spec.osContent 4 (f+1) (.cons _ _ ts) ≠ none`.
+
+  2. The loop (`berLoop_def`, `berLoop_indef`, `berLoop_inv`, `berLoop_nopanic`, `skipOpt_nopanic`):
+     * definite content (`g.limit = some l`, the `l` octets present, `parseAll` reads them as `ts`):
+       the loop returns the `Cons` unchanged at `⟨data.drop l, some 0⟩` if `allOSL ts`, and is a
+       content error otherwise (the first value containing a foreign tag stops it);
+     * indefinite content (`parseUntilEoc` reads the view as `ts`, end-of-contents, `rest`): the loop
+       returns state `done` behind the end-of-contents octets if `allOSL ts`, content error otherwise;
+     * conversely (`berLoop_inv`, any state, any mode): whenever the loop returns, `C10.specAll` holds
+       for trees that are `allOSL`, and the budgets sufficed;
+     * `skip_opt` (any filter) and the loop never panic on a source without open capture when a
+       definite `Constructed` sits on a limited source: every failure is `.content` or `.fuel`.
+     Budget (`Budget fuel ts`): `inner` ≥ `hdrs t` for every value `t` (headers, end-of-contents
+     included: one `skip_opt` iteration each), outer > number of values; `from_content` uses the same
+     `fuel` for both; `hdrsL ts < fuel` always suffices (`budget_of_hdrsL`).  Rust has no such budget:
+     `.fuel` is an artefact of the model's loop counters.
+
+  3. `from_content` followed by the framework's exhaustion check (`C16.fromContentChecked`), for the
+     two states the content of a constructed value can have:
+     * `cD` = definite, on `St d (some l)`: `ber_def_run` (closed form on parsed content),
+       `ber_def_accept_inv`, `ber_def_accept_iff`, `ber_def_accept_iff_spec`: accepted ⇔ the `l` octets
+       are there, `parseAll .ber f (d.take l) = some ts` for some `f`, `allOSL ts` (⇔ `osContent`
+       defined), budget; then the result is `.cons (d.take l)`, `Cons` unchanged, source
+       `St (d.drop l) (some 0)`.
+     * `cI` = indefinite, on any `St d lo`: `ber_indef_run`, `ber_indef_accept_inv`,
+       `ber_indef_accept_iff`, `ber_indef_accept_iff_spec`: accepted ⇔ `parseUntilEoc .ber f view =
+       some (ts, rest)`, `allOSL ts`, budget; then the state is `done`, the source is behind the
+       end-of-contents octets, and the value holds the `n = view.length - rest.length` octets advanced
+       over, THE END-OF-CONTENTS OCTETS INCLUDED (known finding D12, stated as it is:
+       `ber_indef_captured` — the captured octets parse as values + end-of-contents + nothing, and
+       `parseAll` rejects them).
+     * `ber_accept_views`: in both cases the captured octets satisfy `C16.wfTrees f captured = some ts`
+       (so `C16.WfOS`), hence by `C16.views_eq_concat` all views (segments, octets, len, is_empty)
+       succeed and present the concatenation of the primitive segments (`ViewsOK`).
+       Needs: the grammar only looks at what it consumes (`parse_ext`, `parse_restrict`,
+       `readIdent_take`, `readLen_take`) and `parseAll_none_of_untilEoc`.
+
+  4. Rejection (`ber_reject`, `fromContent_nopanic`, `ber_def_reject_foreign`,
+     `ber_indef_reject_foreign`, `ber_def_reject_malformed`, `ber_indef_reject_malformed`): every
+     failure is a content error or the budget, never a panic; content with a non-universal-4
+     identifier at any depth, content that is not there, and content that is not a sequence of BER
+     values (resp. values + end-of-contents) is never accepted, whatever the fuel; with a sufficient
+     budget a foreign tag is exactly `.error .content` (`ber_def_run`, `ber_indef_run`).
+
+  -- not covered:
+  * sources with an open capture frame (a `capture` around the whole read) and sources other than
+    SliceSource; the `runG` (contract-checking) layer — C16 has `cons_accept_captures_consumed` there;
+  * states `unbounded`/`done` of the `Constructed` are covered by the loop lemmas (`berLoop_inv`,
+    `berLoop_nopanic`, `fromContent_nopanic`) but not by closed forms: the content of a value is never
+    in these states when `from_content` is called;
+  * when the grammar rejects and the budget is small, WHICH of `.content` / `.fuel` comes out (as in C10);
+  * DER/CER/primitive: in C16.lean.
+-/
 import Bcder.Props.C16
 import Bcder.Props.C10
 namespace Bcder.Props.C16b
@@ -1674,5 +1743,80 @@ theorem ber_indef_reject_malformed (fuel : Nat) (d : Bytes) (lo : Option Nat)
     obtain ⟨⟨os, ct⟩, g'⟩ := x
     obtain ⟨f', ts', rest', hp', _⟩ := ber_indef_accept_inv fuel d lo os ct g' hr
     rw [hbad f'] at hp'; cases hp'
+
+/-! ## non-vacuity -/
+
+/-- the content octets of `24 80 04 02 61 62 00 00` (what `from_content` sees after the header of
+    the indefinite-length constructed OCTET STRING), followed by other data -/
+def exA : Bytes := [0x04, 0x02, 0x61, 0x62, 0x00, 0x00, 0xff]
+theorem exA_parse : parseUntilEoc .ber 3 (St exA none).view = some ([.prim ⟨0, false, 4⟩ [0x61, 0x62]], [0xff]) := by rfl
+theorem exA_budget : Budget 2 [.prim ⟨0, false, 4⟩ [0x61, 0x62]] := by decide
+theorem exA_run : runG0 (fromContentChecked 2 (.cons cI)) (St exA none) =
+    .ok ((.cons [0x04, 0x02, 0x61, 0x62, 0x00, 0x00], .cons cE), St [0xff] none) :=
+  (ber_indef_run 2 exA none 3 _ _ exA_parse exA_budget).trans (by rfl)
+/-- the captured octets include the `00 00` (D12): values-then-end-of-contents, not a sequence of values -/
+example : parseUntilEoc .ber 3 [0x04, 0x02, 0x61, 0x62, 0x00, 0x00] = some ([.prim ⟨0, false, 4⟩ [0x61, 0x62]], []) ∧
+    parseAll .ber 3 [0x04, 0x02, 0x61, 0x62, 0x00, 0x00] = none :=
+  ⟨(ber_indef_captured 3 _ _ _ exA_parse).1, (ber_indef_captured 3 _ _ _ exA_parse).2.1⟩
+/-- … and all views of the accepted value present `61 62` -/
+example : ∃ f ts captured, (OS.cons [0x04, 0x02, 0x61, 0x62, 0x00, 0x00]) = .cons captured ∧
+    wfTrees f captured = some ts ∧ WfOS captured ∧ allOSL ts = true ∧
+    (parseAll .ber f (St exA none).view = some ts ∨ ∃ rest, parseUntilEoc .ber f (St exA none).view = some (ts, rest)) ∧
+    ViewsOK (.cons [0x04, 0x02, 0x61, 0x62, 0x00, 0x00]) f ts :=
+  ber_accept_views 2 cI exA none (Or.inr rfl) _ _ _ exA_run
+example : OS.octets (.cons [0x04, 0x02, 0x61, 0x62, 0x00, 0x00]) = .ok [0x61, 0x62] :=
+  (views_of_wf 3 _ _ ((ber_indef_captured 3 _ _ _ exA_parse).2.2 (by rfl))).2.1
+/-- the whole value `24 80 04 02 61 62 00 00` through the framework's reader (by evaluation) -/
+example : runG0 (takeValueIf ⟨.unbounded, .ber⟩ Tag.OCTET_STRING (OS.fromContent 2))
+    (St [0x24, 0x80, 0x04, 0x02, 0x61, 0x62, 0x00, 0x00] none) =
+    .ok (((.cons [0x04, 0x02, 0x61, 0x62, 0x00, 0x00] : OS), ⟨.unbounded, .ber⟩), St [] none) := by rfl
+
+/-- constructed in constructed (an indefinite and a definite one, an empty segment), as the content
+    of a definite-length value of 12 octets, followed by other data -/
+def exB : Bytes := C16.ex2 ++ [0x09]
+def exB_ts : List Tree :=
+  [.cons ⟨0, true, 4⟩ true [.prim ⟨0, false, 4⟩ [0x61, 0x62]], .cons ⟨0, true, 4⟩ false [.prim ⟨0, false, 4⟩ []]]
+theorem exB_parse : parseAll .ber 5 (exB.take 12) = some exB_ts := by rfl
+theorem exB_budget : Budget 3 exB_ts := by decide
+theorem exB_run : runG0 (fromContentChecked 3 (.cons cD)) (St exB (some 12)) =
+    .ok ((.cons C16.ex2, .cons cD), St [0x09] (some 0)) :=
+  (ber_def_run 3 exB 12 5 exB_ts (by decide) exB_parse exB_budget).trans (by rfl)
+example : ∃ r, runG0 (fromContentChecked 3 (.cons cD)) (St exB (some 12)) = .ok r :=
+  (ber_def_accept_iff_spec 3 exB 12).mpr ⟨by decide, 5, exB_ts, exB_parse, rfl, by decide, exB_budget⟩
+example : OS.segments (.cons C16.ex2) = .ok [[0x61, 0x62], []] :=
+  (views_of_wf 5 C16.ex2 exB_ts (wf_of_parseAll 5 _ _ exB_parse (by rfl))).1
+/-- the budget is needed: with `fuel = 2` the first value (3 headers) does not fit -/
+example : runG0 (fromContentChecked 2 (.cons cD)) (St exB (some 12)) = .error .fuel := by rfl
+
+/-- three levels, all of indefinite length (`C16.ex3` = content of the outermost one, its
+    end-of-contents included): 6 headers -/
+def exC_ts : List Tree :=
+  [.cons ⟨0, true, 4⟩ true [.cons ⟨0, true, 4⟩ true [.prim ⟨0, false, 4⟩ [0x61]], .prim ⟨0, false, 4⟩ [0x62]]]
+theorem exC_parse : parseUntilEoc .ber 6 (St C16.ex3 none).view = some (exC_ts, []) := by rfl
+example : runG0 (fromContentChecked 6 (.cons cI)) (St C16.ex3 none) = .ok ((.cons C16.ex3, .cons cE), St [] none) :=
+  (ber_indef_run 6 C16.ex3 none 6 _ _ exC_parse (by decide)).trans (by rfl)
+
+/-- a foreign INTEGER at depth 1 inside an otherwise well-formed value: content error with a
+    sufficient budget, never accepted with any budget -/
+def exD : Bytes := [0x24, 0x80, 0x04, 0x01, 0x61, 0x02, 0x01, 0x05, 0x00, 0x00]
+def exD_ts : List Tree := [.cons ⟨0, true, 4⟩ true [.prim ⟨0, false, 4⟩ [0x61], .prim ⟨0, false, 2⟩ [0x05]]]
+theorem exD_parse : parseAll .ber 5 (exD.take 10) = some exD_ts := by rfl
+example : runG0 (fromContentChecked 4 (.cons cD)) (St exD (some 10)) = .error .content :=
+  (ber_def_run 4 exD 10 5 exD_ts (by decide) exD_parse (by decide)).trans (by rfl)
+example (fuel : Nat) : ∃ e, runG0 (fromContentChecked fuel (.cons cD)) (St exD (some 10)) = .error e ∧
+    (e = .content ∨ e = .fuel) :=
+  ber_def_reject_foreign fuel exD 10 5 exD_ts exD_parse ⟨(⟨0, false, 2⟩, 1), by decide, by decide⟩
+example : runFilter OS.berFilter () (preorderL exD_ts 0) = none ∧ allOSL exD_ts = false := ⟨by rfl, by rfl⟩
+/-- the same as a whole value through the framework's reader (by evaluation) -/
+example : runG0 (takeValueIf ⟨.unbounded, .ber⟩ Tag.OCTET_STRING (OS.fromContent 5))
+    (St (0x24 :: 0x0a :: exD) none) = .error .content := by rfl
+
+/-- malformed: content shorter than the length says; an inner indefinite value that is never closed;
+    nothing in view for an indefinite value -/
+example (fuel : Nat) : ∃ e, runG0 (fromContentChecked fuel (.cons cD)) (St [0x04] (some 3)) = .error e ∧
+    (e = .content ∨ e = .fuel) := ber_def_reject_malformed fuel [0x04] 3 (Or.inl (by decide))
+example : runG0 (fromContentChecked 5 (.cons cD)) (St [0x24, 0x80, 0x04, 0x01, 0x61] (some 5)) = .error .content := by rfl
+example (fuel : Nat) : ∃ e, runG0 (fromContentChecked fuel (.cons cI)) (St [] none) = .error e ∧
+    (e = .content ∨ e = .fuel) := ber_indef_reject_malformed fuel [] none (fun f => by cases f <;> rfl)
 
 end Bcder.Props.C16b
